@@ -365,7 +365,7 @@ func TestVerifC07ReservationHistory(t *testing.T) {
 				} else if len(matched) > 0 {
 					sawNoNomination = true
 				}
-				st = pl.Reserve(bg, cs, pod, c07Node)
+				st = c07Reserve(pl, cs, pod)
 				nominator.RemoveNominatedReservations(pod)
 				if !st.IsSuccess() {
 					pl.Unreserve(bg, cs, pod, c07Node)
